@@ -152,7 +152,7 @@ def exercise(ctx):
                     V("method-name", f"{kind} client has no method {exp!r} for RPC {m['name']}")
                 if exp != name and hasattr(client, name + "__"):
                     V("method-name", f"{kind} client mangles the name twice")
-        if pos in ("file-name", "module-collision"):
+        if pos in ("file-name", "module-collision", "pp-dep-same-module", "pp-dep-reserved-module"):
             base = f["name"].rsplit("/", 1)[-1][:-6]
             mod = base + "_" if (keyword.iskeyword(base) or base in ("metadata", "retry", "timeout", "request")) else base
             if pos == "file-name":
@@ -164,7 +164,7 @@ def exercise(ctx):
                 if not hasattr(tm, "FrobRequest"):
                     V("types-module", f"types module {mod} lacks FrobRequest")
             c = grpc_call("sync", request=PyReq(plain="x"))
-            if pos == "module-collision" and c is not None:
+            if pos in ("module-collision", "pp-dep-same-module", "pp-dep-reserved-module") and c is not None:
                 r = Req(plain="y")
                 r.dep.SetInParent()
                 c2 = grpc_call("sync", dep=getattr(to_python(ctx, P + "FrobRequest", r), "dep"))
